@@ -7,7 +7,9 @@ from concurrent.futures import ThreadPoolExecutor
 VERIF = os.path.dirname(os.path.dirname(os.path.abspath(__file__)))
 REPO = os.environ.get("NIXSIM_REPO", "/repo")
 SAN = os.environ.get("SAN", "asan")
-BIN = os.path.join(VERIF, "build", SAN, "nixsim")
+BUILD_ROOT = os.environ.get("NIXSIM_BUILD", os.path.join(VERIF, "build"))
+OUT_ROOT = os.environ.get("NIXSIM_OUT", VERIF)      # evidence/ and replays/ go here (scratch runs against seeded changes use another place)
+BIN = os.path.join(BUILD_ROOT, SAN, "nixsim")
 NCPU = os.cpu_count() or 4
 
 PROP_LANE = {"C01": "array", "C02": "tree", "C03": "names", "C04": "delete", "C08": "reject", "C09": "modes", "C10": "version",
@@ -18,7 +20,8 @@ BUDGET = {
     "quick":    {"runs": 2400, "cap_s": 150, "workers": min(14, NCPU)},
     "thorough": {"runs": 60000, "cap_s": 1500, "workers": min(15, NCPU)},
 }
-LANE_SCALE = {"modes": 0.25, "version": 0.02, "ids": 0.5, "abuse": 1.0, "durable": 1.0}
+LANE_SCALE = {"modes": 0.3, "version": 0.03, "ids": 0.4, "xkill": 0.15}
+EXTRA_LANES = {"C11": ["xkill"]}
 
 LEVELS = {"C10": "fault_enumeration"}
 
@@ -36,12 +39,12 @@ def log(*a):
 
 
 def build():
-    os.makedirs(os.path.join(VERIF, "build"), exist_ok=True)
-    lock = open(os.path.join(VERIF, "build", ".lock"), "w")
+    os.makedirs(BUILD_ROOT, exist_ok=True)
+    lock = open(os.path.join(BUILD_ROOT, ".lock"), "w")
     fcntl.flock(lock, fcntl.LOCK_EX)
     try:
         t0 = time.time()
-        r = subprocess.run(["make", "-C", VERIF, "-j", str(NCPU), "SAN=" + SAN, "REPO=" + REPO], stdout=subprocess.PIPE, stderr=subprocess.STDOUT, text=True)
+        r = subprocess.run(["make", "-C", VERIF, "-j", str(NCPU), "SAN=" + SAN, "REPO=" + REPO, "BUILD=" + BUILD_ROOT], stdout=subprocess.PIPE, stderr=subprocess.STDOUT, text=True)
         if r.returncode != 0:
             sys.stdout.write(r.stdout[-6000:])
             log("BUILD FAILED: /repo's working tree does not compile with the harness")
@@ -165,13 +168,15 @@ def minimise(swarm, ops, want, pool):
 
 
 def load_known():
-    path = os.path.join(VERIF, "known_findings.jsonl")
+    path = os.path.join(VERIF, "known_findings.txt")
     out = []
     if os.path.exists(path):
         for line in open(path):
             line = line.strip()
-            if line and not line.startswith("#"):
-                out.append(json.loads(line))
+            if line.startswith("open:"):
+                d = json.loads(line[5:].strip())
+                d["status"] = "open"
+                out.append(d)
     return out
 
 
@@ -191,13 +196,13 @@ def match_known(known, prop, rec):
 
 
 def write_evidence(prop, tier, seed, level, coverage, wall, violations, assumptions):
-    os.makedirs(os.path.join(VERIF, "evidence"), exist_ok=True)
+    os.makedirs(os.path.join(OUT_ROOT, "evidence"), exist_ok=True)
     ev = {"property_id": prop, "tier": tier, "seed": seed, "level": level, "coverage": coverage, "assumptions": assumptions,
           "wall_s": round(wall, 2), "violations": violations}
-    tmp = os.path.join(VERIF, "evidence", prop + ".json.tmp")
+    tmp = os.path.join(OUT_ROOT, "evidence", prop + ".json.tmp")
     with open(tmp, "w") as f:
         json.dump(ev, f, indent=1, sort_keys=True)
-    os.replace(tmp, os.path.join(VERIF, "evidence", prop + ".json"))
+    os.replace(tmp, os.path.join(OUT_ROOT, "evidence", prop + ".json"))
 
 
 NONTRIVIAL_KEYS = {
@@ -257,6 +262,20 @@ def check(prop, tier):
     workers = int(os.environ.get("NIXSIM_WORKERS", b["workers"]))
     t0 = time.time()
     records, capped = run_workers(lane, seed, tier, n, workers, b["cap_s"])
+    lane_of = {i: lane for i in records}
+    for extra in EXTRA_LANES.get(prop, []):
+        # further lanes serving the same property; their run indices are shifted so that records do not collide
+        n2 = max(16, int(n * LANE_SCALE.get(extra, 1.0)))
+        rec2, capped2 = run_workers(extra, seed, tier, n2, workers, b["cap_s"])
+        capped = capped or capped2
+        for i, rrec in rec2.items():
+            rrec["lane_idx"] = i
+            records[1000000 + i] = rrec
+            lane_of[1000000 + i] = extra
+        n += n2
+    for i, rrec in records.items():
+        rrec.setdefault("lane_idx", rrec["idx"])
+        rrec["idx"] = i
     run_s = time.time() - t0
     known = load_known()
     cnt, shapes, states, triples, finals, verdicts = aggregate(prop, lane, records)
@@ -271,7 +290,7 @@ def check(prop, tier):
     reported = 0
     known_hit = {}
     nondet = False
-    os.makedirs(os.path.join(VERIF, "replays"), exist_ok=True)
+    os.makedirs(os.path.join(OUT_ROOT, "replays"), exist_ok=True)
     pool = ThreadPoolExecutor(max_workers=NCPU)
     # known findings first (cheap), then at most a handful of new classes are minimised
     new_groups = []
@@ -284,7 +303,7 @@ def check(prop, tier):
     seen_min = set()
     replay_samples = []
     for r in new_groups[:8]:
-        swarm, ops = get_plan(lane, seed, tier, r["idx"])
+        swarm, ops = get_plan(lane_of[r["idx"]], seed, tier, r["lane_idx"])
         # gate 1: the same seed reproduces with the same event hash
         again = exec_plan(swarm, ops)
         if not same_violation(again, r) or again.get("hash") != r.get("hash"):
@@ -307,9 +326,9 @@ def check(prop, tier):
             continue
         seen_min.add(sig)
         name = "%s-%d-%d.json" % (prop, seed, r["idx"])
-        path = os.path.join(VERIF, "replays", name)
+        path = os.path.join(OUT_ROOT, "replays", name)
         with open(path, "w") as f:
-            json.dump({"property": prop, "lane": lane, "base_seed": seed, "run": r["idx"], "tier": tier, "swarm": swarm, "plan": mops,
+            json.dump({"property": prop, "lane": lane_of[r["idx"]], "base_seed": seed, "run": r["lane_idx"], "tier": tier, "swarm": swarm, "plan": mops,
                        "oracle": final["oracle"], "op": final["op"], "arg_class": final.get("arg_class", ""), "fail_at": final.get("op_index"),
                        "detail": final.get("detail", ""), "event_hash": final.get("hash"), "minimised_from": len(ops), "minimise_tests": ntests}, f, indent=1)
         print("VIOLATION property=%s replay=%s" % (prop, path))
@@ -323,8 +342,8 @@ def check(prop, tier):
     wall = time.time() - t_start
     done = len(records)
     samples = []
-    for idx in sorted(records)[:3]:
-        sw, ops = get_plan(lane, seed, tier, idx)
+    for idx in sorted(records)[:3] + [i for i in sorted(records) if i >= 1000000][:2]:
+        sw, ops = get_plan(lane_of[idx], seed, tier, records[idx]["lane_idx"])
         samples.append({"run": idx, "verdict": records[idx]["verdict"], "swarm": sw, "plan": ops})
     samples += replay_samples
     faults = {}
@@ -345,6 +364,15 @@ def check(prop, tier):
         "build_s": round(build_s, 1), "run_s": round(run_s, 1), "workers": workers, "sanitizers": "gcc -fsanitize=address,undefined (-fno-sanitize=vptr), NDEBUG" if SAN == "asan" else SAN,
         "exhaustive": False,
     }
+    if prop == "C10":
+        runs_ok = max(1, done)
+        coverage["files_built_from_random_histories"] = done
+        coverage["evaluations"] = int(cnt.get("version.opens", 0))
+        coverage["distinct_nontrivial"] = int(cnt.get("version.opens", 0) // runs_ok)
+        coverage["version_triples_per_file"] = int(cnt.get("version.triples", 0) // runs_ok)
+        coverage["order_law_pairs"] = int(cnt.get("version.order_pairs", 0))
+        coverage["exhaustive"] = True
+        coverage["rule"] = RULES["C10"] + "; evaluations = open attempts over all files, distinct_nontrivial = (triple, mode, Force) combinations of the cube, each enumerated completely on every file"
     level = LEVELS.get(prop, "exploration")
     assumptions = ["libhdf5 1.10.8 behaves as documented", "tmpfs returns what was written", "a clean batch is evidence over the sampled histories, not proof",
                    "one forked process per run: a seed is one exactly repeatable execution (event hash gate on every reported violation)"]
